@@ -27,5 +27,6 @@ def run(idx, rep, tier):
     partition.r_isolated(idx, rep, ["distance3d.containment_test"], floor=0)      # no instance today (the predicates clamp with min/max); armed for rewritten clamps, positive example built in
     misc2.r_insidezero(idx, rep)      # containment and point_to_ellipsoid agree on interior points
     misc2.r_dupcond(idx, rep, [m.name for m in idx.lib_modules()], floor=3)
+    colliders.r_coherence(idx, rep, relevant_to="support_function")      # the colliders of the statement include colliders that were moved with update_pose: a stale attribute changes the support mapping the solver sees
     safediv.r_sqrtdomain(idx, rep, modules=["distance3d.containment_test"], floor=0, unknown_ceiling=2, sqrt_calls=("np.sqrt", "math.sqrt"))
     unpack.r_unpack(idx, rep, floor=1)
